@@ -438,6 +438,14 @@ pub fn run(ctx: &Ctx) -> Rep {
         rep.floor("classes reached from cards", classes.len() as u64, 309);
         rep.floor("six-card hands", n6, 1_000_000);
         rep.floor("seven-card hands", n7, 1_000_000);
+        let (d6a, d6b, d7) = (
+            rep.get("single_suit_six_card_hands_in_every_slot_order"),
+            rep.get("straight_flush_six_card_hands_in_directed_orders"),
+            rep.get("straight_flush_or_single_suit_seven_card_hands_in_directed_orders"),
+        );
+        rep.floor("single-suit six-card hands in every slot order", d6a, 6_864);
+        rep.floor("other straight-flush six-card hands in directed orders", d6b, 1_560);
+        rep.floor("straight-flush or single-suit seven-card hands in directed orders", d7, 47_580);
         rep.exhaustive = Some(true);
     }
     rep.rule = format!(
